@@ -1,20 +1,123 @@
-import KcpVerif.Model.Kcp
-/-! C04 — window discipline: bounded buffering, truthful window, backpressure. -/
+import KcpVerif.Lemmas.KcpWindow
+/-!
+C04 — window discipline: bounded buffering, truthful window, backpressure.
+
+All theorems are about the executable model `Model/Kcp.lean` of `kcp.go`.  "Every reachable state"
+means: `run (start conv snd0 rcv0) ops` for an arbitrary list `ops : List Op` of operations with
+ARBITRARY arguments (`Lemmas/KcpOps.lean`: `send recv input flush update setMtu noDelay wndSize
+setStream`; every byte string for `input` — forged `una`/`sn`/`wnd`/`len` included —, every clock
+value, every buffer length), starting from a fresh core whose sequence numbers start anywhere
+(`start`; the real code is `start conv 0 0`).
+
+The only hypothesis is `okRun`: every `wndSize` of the run leaves both windows below `2^31` and
+EITHER shrinks no window (growing mid-traffic is allowed) OR happens while nothing is buffered
+(windows set before traffic).  Shrinking a window under buffered traffic is excluded — and has to be:
+it makes `rcv_queue.length ≤ rcv_wnd` false immediately.  `okRun` is decidable.
+-/
 namespace KcpVerif.Props
 open KcpVerif KcpVerif.Gen KcpVerif.Kcp
 
 /-- the only place that appends to the delivery queue never exceeds the receive window -/
 theorem C04_moveLoop_bound (wnd : Nat) (buf q : List Seg) (nxt : U32) (h : q.length ≤ wnd) :
-    (moveLoop wnd buf q nxt).q.length ≤ wnd := by
-  induction buf generalizing q nxt with
-  | nil => simpa [moveLoop] using h
-  | cons s rest ih =>
-    unfold moveLoop
-    split
-    · rename_i hc
-      apply ih
-      simp only [List.length_append, List.length_cons, List.length_nil]
-      omega
-    · exact h
+    (moveLoop wnd buf q nxt).q.length ≤ wnd := moveLoop_q_le wnd buf q nxt h
+
+/-! ### the invariant is inductive over every operation -/
+
+/-- `Inv` (receive window, delivery-queue bound, send window — `Lemmas/KcpWindow.lean`) is preserved
+by EVERY operation with arbitrary arguments; the side condition `Op.ok` is `True` except for
+`wndSize`, where it is `WndChangeOK`. -/
+theorem C04_inv_step (k : Kcp) (op : Op) (hok : op.ok k) (h : Inv k) : Inv (step k op) :=
+  step_inv k op hok h
+
+/-- … in particular by `Input` of ANY byte string, without side condition -/
+theorem C04_inv_input (k : Kcp) (data : Bytes) (regular ackNoDelay : Bool) (now : U32) (h : Inv k) :
+    Inv (input k data regular ackNoDelay now).k := input_inv k data regular ackNoDelay now h
+
+theorem C04_inv_reachable (conv snd0 rcv0 : U32) (ops : List Op) (hok : okRun (start conv snd0 rcv0) ops) :
+    Inv (run (start conv snd0 rcv0) ops) := reachable_inv conv snd0 rcv0 ops hok
+
+/-- shrinking is excluded for a reason: one `wndSize` below the queue length breaks the bound -/
+example : ∃ k : Kcp, Inv k ∧ ¬ (k.wndSize 1 1).rcv_queue.length ≤ (k.wndSize 1 1).rcv_wnd.toNat :=
+  ⟨{ Kcp.new 1 with rcv_queue := [{}, {}] },
+   ⟨⟨by decide, fun _ hx => absurd hx List.not_mem_nil, List.Pairwise.nil⟩, by decide,
+    ⟨by decide, trivial, by decide, by decide⟩⟩, by decide⟩
+
+/-! ### 1. delivery queue -/
+
+/-- in every reachable state at most one receive window of segments awaits the reader -/
+theorem C04_rcvq_bound (conv snd0 rcv0 : U32) (ops : List Op) (hok : okRun (start conv snd0 rcv0) ops) :
+    (run (start conv snd0 rcv0) ops).rcv_queue.length ≤ (run (start conv snd0 rcv0) ops).rcv_wnd.toNat :=
+  (reachable_inv conv snd0 rcv0 ops hok).rq
+
+/-! ### 2. out-of-order buffer -/
+
+/-- `InvWin`: in every reachable state the sequence numbers in `rcv_buf` are pairwise distinct and lie in
+`[rcv_nxt, rcv_nxt + rcv_wnd)` (wrap-around order), with `rcv_wnd < 2^31`; hence (pigeonhole on an
+interval of `BitVec 32`) at most one receive window of segments is buffered out of order. -/
+theorem C04_rcvbuf_bound (conv snd0 rcv0 : U32) (ops : List Op) (hok : okRun (start conv snd0 rcv0) ops) :
+    let k := run (start conv snd0 rcv0) ops
+    k.rcv_wnd.toNat < 2^31 ∧
+    (∀ s ∈ k.rcv_buf, 0 ≤ itimediff s.sn k.rcv_nxt ∧ itimediff s.sn k.rcv_nxt < (k.rcv_wnd.toNat : Int)) ∧
+    k.rcv_buf.Pairwise (fun a b => a.sn ≠ b.sn) ∧
+    k.rcv_buf.length ≤ k.rcv_wnd.toNat := by
+  intro k
+  have h := (reachable_inv conv snd0 rcv0 ops hok).win
+  exact ⟨h.small, h.inwin, h.distinct, h.length_le⟩
+
+/-- the pigeonhole step on its own: ANY list of segments with distinct numbers inside a window of
+`wnd < 2^31` values has at most `wnd` elements -/
+theorem C04_window_pigeonhole (nxt wnd : U32) (buf : List Seg) (hw : wnd.toNat < 2^31)
+    (hin : ∀ s ∈ buf, 0 ≤ itimediff s.sn nxt ∧ itimediff s.sn nxt < (wnd.toNat : Int))
+    (hd : buf.Pairwise (fun a b => a.sn ≠ b.sn)) : buf.length ≤ wnd.toNat :=
+  WinOK.length_le ⟨hw, hin, hd⟩
+
+/-! ### 4. segments in flight -/
+
+/-- in every reachable state `snd_buf` holds exactly the consecutive sequence numbers
+`snd_una, …, snd_nxt - 1`, so the in-flight count `snd_nxt - snd_una` (32-bit) IS its length, and it
+never exceeds the send window — whatever `una`/`sn` a peer forges. -/
+theorem C04_inflight_bound (conv snd0 rcv0 : U32) (ops : List Op) (hok : okRun (start conv snd0 rcv0) ops) :
+    let k := run (start conv snd0 rcv0) ops
+    k.snd_wnd.toNat < 2^31 ∧
+    Consec k.snd_una k.snd_buf ∧
+    (k.snd_nxt - k.snd_una).toNat = k.snd_buf.length ∧
+    k.snd_buf.length ≤ k.snd_wnd.toNat := by
+  intro k
+  have h := (reachable_inv conv snd0 rcv0 ops hok).snd
+  exact ⟨h.small, h.consec, h.inflight, h.len_le⟩
+
+/-! ### non-vacuity: a concrete run across the 32-bit wrap with forged and out-of-order input -/
+
+/-- PUSH segments for conv 7 (`sn` = FFFFFFFF / FFFFFFFE / 0), one payload byte each -/
+def pushFF : Bytes := [7,0,0,0, 81,0, 32,0, 0,0,0,0, 0xFF,0xFF,0xFF,0xFF, 0xF0,0xFF,0xFF,0xFF, 1,0,0,0, 0xAA]
+def pushFE : Bytes := [7,0,0,0, 81,0, 32,0, 0,0,0,0, 0xFE,0xFF,0xFF,0xFF, 0xF0,0xFF,0xFF,0xFF, 1,0,0,0, 0xBB]
+def push00 : Bytes := [7,0,0,0, 81,0, 32,0, 0,0,0,0, 0,0,0,0, 0xF0,0xFF,0xFF,0xFF, 1,0,0,0, 0xCC]
+/-- an ACK for sn FFFFFFF1 whose `una` (FFFFFFF1) acknowledges the first segment -/
+def ackF1 : Bytes := [7,0,0,0, 82,0, 32,0, 100,0,0,0, 0xF1,0xFF,0xFF,0xFF, 0xF1,0xFF,0xFF,0xFF, 0,0,0,0]
+/-- a forged ACK whose `una` is 2^31 - 1 ahead -/
+def ackForged : Bytes := [7,0,0,0, 82,0, 0xFF,0xFF, 100,0,0,0, 0x00,0,0,0x70, 0xEF,0xFF,0xFF,0x7F, 0,0,0,0]
+
+def demoOps : List Op :=
+  [.wndSize 2 2, .noDelay 1 10 2 1, .send [1,2,3], .send [4], .send [5], .flush true 100,
+   .input pushFF true false 120, .input push00 true false 121, .wndSize 3 4, .input pushFE true false 125,
+   .input ackF1 true false 130, .update 300, .recv 10, .input ackForged true true 310, .update 400]
+
+def demo : Kcp := run (start 7 0xFFFFFFF0#32 0xFFFFFFFE#32) demoOps
+
+/-- the hypothesis of the reachable-state theorems holds for the demo run (it contains a window set
+before traffic, a window grown mid-traffic, an out-of-window segment and forged acknowledgements) -/
+example : okRun (start 7 0xFFFFFFF0#32 0xFFFFFFFE#32) demoOps := by decide
+
+/-- … and the run visits non-trivial states: after 8 operations the send window is exactly full (the
+bound of `C04_inflight_bound` is tight), one segment is buffered out of order at sequence number
+FFFFFFFF and the out-of-window segment 0 was refused; after 10 the delivery queue holds two segments
+and `rcv_nxt` has wrapped to 0. -/
+example :
+    let k := run (start 7 0xFFFFFFF0#32 0xFFFFFFFE#32) (demoOps.take 8)
+    k.snd_buf.map (·.sn) = [0xFFFFFFF0#32, 0xFFFFFFF1#32] ∧ k.snd_wnd = 2 ∧ k.snd_queue.length = 1 ∧
+    k.rcv_buf.map (·.sn) = [0xFFFFFFFF#32] ∧ k.rcv_wnd = 2 := by decide
+example :
+    let k := run (start 7 0xFFFFFFF0#32 0xFFFFFFFE#32) (demoOps.take 10)
+    k.rcv_queue.map (·.sn) = [0xFFFFFFFE#32, 0xFFFFFFFF#32] ∧ k.rcv_nxt = 0 ∧ k.rcv_buf = [] := by decide
 
 end KcpVerif.Props
